@@ -172,7 +172,7 @@ func checkC11(p *Prog, r *Report) {
 				/* Every successful flush is logged before the next receive. */
 				var from *Loc
 				for _, t := range nilTestsOf(fn, fcall) {
-					l := Loc{t.If.Block().Succs[t.NilSucc], -1}
+					l := edgeLoc(t.If.Block(), t.NilSucc)
 					from = &l
 				}
 				if nil != from {
@@ -249,7 +249,7 @@ func checkC11(p *Prog, r *Report) {
 				} else {
 					rOut.OK(c+":iff-handed-over", posOf(rec), "inside the hand-over arm of the select")
 					/* Every hand-over is logged. */
-					miss := reachQ{From: Loc{aif.Block().Succs[asucc], -1}, Block: func(i ssa.Instruction) bool { return i == ssa.Instruction(rec) }, Target: func(i ssa.Instruction) bool {
+					miss := reachQ{From: edgeLoc(aif.Block(), asucc), Block: func(i ssa.Instruction) bool { return i == ssa.Instruction(rec) }, Target: func(i ssa.Instruction) bool {
 						switch i.(type) {
 						case *ssa.Select, *ssa.Return:
 							return true
